@@ -12,6 +12,7 @@ import MechVerif.Lemmas.Crc
 import MechVerif.Lemmas.Bytecode
 import MechVerif.Lemmas.Loader
 import MechVerif.Lemmas.Emit
+import MechVerif.Gen.Layout
 namespace MechVerif.C07
 open MechVerif.Crc MechVerif.Bytecode
 
@@ -270,5 +271,33 @@ example : LoadedWf (fun _ => true) exLoaded := by
     have h2 : (body exLoaded).length = 262 := by decide +kernel
     rw [h1, h2]; decide
 end loaderExamples
+
+/-! ### the layout as written in the source (regenerated on every run: `Gen/Layout.lean`) -/
+section written
+open MechVerif.Loader MechVerif.Layout
+
+/-- The model writes the header, every instruction, every constant-table entry and every symbol entry field by field in
+    the order and widths read off `ByteCodeHeader::write_to`, `DecodedInstr::write_to` with the numbers of `enum OpCode`,
+    `ParsedConstEntry::write_to` and `SymbolEntry::write_to` of the source; `HEADER_SIZE`, 24 and 13 are the sums of
+    those widths. -/
+theorem C07_model_writes_the_layout_of_the_source (h : Header) (i : Instr) (c : CEntry) (s : Nat × Bool × Nat) :
+    writeHeader h = h.magic ++ encodeFields (Gen.Layout.headerWritten.tail.map (·.2)) (headerValues h) ∧
+    Gen.Layout.headerSizeTerms.sum = HEADER_SIZE ∧
+    encodeInstr i = BitVec.ofNat 8 (opcodeIn Gen.Layout.opcodes (instrRowIn Gen.Layout.decodedWritten i).2.1) ::
+      (encodeFields ((instrRowIn Gen.Layout.decodedWritten i).2.2.1.map (·.2)) (fieldValues i) ++
+       (if (instrRowIn Gen.Layout.decodedWritten i).2.2.2 then u32s (listValues i) else [])) ∧
+    writeConst c = encodeFields (Gen.Layout.parsedConstEntryWritten.map (·.2)) (constEntryValues c) ∧
+    (writeConst c).length = Gen.Layout.constEntryByteLenTerms.sum ∧
+    writeSymbol s = encodeFields (Gen.Layout.symbolEntryWritten.map (·.2)) (symbolEntryValues s) ∧
+    (writeSymbol s).length = Gen.Layout.symbolDivisor := by
+  obtain ⟨_, hw, _, _, hs⟩ := Gen.Layout.C07_header_layout_is_model
+  obtain ⟨ho, _⟩ := Gen.Layout.C07_opcodes_are_model
+  obtain ⟨_, hd, _, _, _⟩ := Gen.Layout.C07_instr_layout_is_model
+  obtain ⟨hpc, _, _, _, hcs, hsw, _, hdiv, _⟩ := Gen.Layout.C07_entry_layouts_are_model
+  rw [hw, hs, ho, hd, hpc, hcs, hsw, hdiv]
+  exact ⟨writeHeader_by_layout h, rfl, encodeInstr_by_layout i, writeConst_by_layout c, (entry_sizes c s).1,
+    writeSymbol_by_layout s, (entry_sizes c s).2.2.1⟩
+
+end written
 
 end MechVerif.C07
